@@ -473,7 +473,7 @@ func (v *Verifier) findFunc(pkgRel, key string) []*ssa.Function {
 func (v *Verifier) verifyFunc(fn *ssa.Function, fc *FuncContract, em *Emitter, guardOnly bool) (fx *FuncExec, err error) {
 	fx = &FuncExec{V: v, fn: fn, fc: fc, em: em, vals: map[ssa.Value]Val{}, counts: map[string]int{},
 		heapInfos: map[string]*heapInfo{}, freshRefs: map[string]bool{}, callStats: map[string]int{},
-		usedContracts: map[string]bool{}, assumptions: map[string]bool{}, usedCallSites: map[*CallSiteSpec]bool{}, guardOnly: guardOnly, heldOnEntry: map[string]bool{}}
+		usedContracts: map[string]bool{}, assumptions: map[string]bool{}, usedCallSites: map[*CallSiteSpec]bool{}, guardOnly: guardOnly, heldOnEntry: map[string]bool{}, quantsOf: map[string][]quantRec{}}
 	if fc != nil && fc.Scope == "functional" {
 		fx.functional = true
 	}
@@ -677,6 +677,10 @@ func writeQuery(path, prelude string, em *Emitter, ob *Obligation) {
 	b.WriteString("; obligation " + ob.Name + "\n; " + ob.Desc + "\n; " + ob.Pos + "  " + ob.Code + "\n")
 	b.WriteString(prelude)
 	for _, l := range em.lines[:ob.prefix] {
+		b.WriteString(l)
+		b.WriteByte('\n')
+	}
+	for _, l := range ob.extra {
 		b.WriteString(l)
 		b.WriteByte('\n')
 	}
